@@ -496,13 +496,13 @@ Proof. rewrite In_class_contrib. intros [t [o [H1 [H2 [_ [H3 H4]]]]]]. exists t,
 Record dom_facts (tg : target) (orc : oracles) (G : graph) (p0 : str) : Prop := {
   df_ns : wf_ns_facts (t_ns tg) p0;
   df_graph : wf_graph G = true;
-  df_tau : ok_ref (t_ns tg) (reverse_keys_and_values (t_ns tg)) true (t_tau tg) = true;
+  df_tau : ok_ref (t_ns tg) (reverse_keys_and_values (t_ns tg)) true c_unprefix_ifp_once (t_tau tg) = true;
   df_shape : if t_all tg
              then t_classes tg = None
              else xorb (match t_classes tg with None => false | Some _ => true end)
                        (match t_items tg with None => false | Some _ => true end) = true;
   df_classes : forall l, t_classes tg = Some l ->
-                         l <> [] /\ forall r, In r l -> ok_ref (t_ns tg) (pd_of (t_ns tg)) true r = true;
+                         l <> [] /\ forall r, In r l -> ok_ref (t_ns tg) (pd_of (t_ns tg)) true c_unprefix_ifp_once r = true;
   df_all : t_all tg = true ->
            forall x, In x (tau_objects G (cref (t_ns tg) (t_tau tg))) ->
                      exists c, x = ON (Node KIri c) /\ prefixb (Str "<") c = false;
@@ -571,7 +571,7 @@ Definition class_part (tg : target) (G : graph) (k : str) : list str :=
   end.
 
 Lemma class_names_ok ns p0 l :
-  wf_ns_facts ns p0 -> (forall r, In r l -> ok_ref ns (pd_of ns) true r = true) ->
+  wf_ns_facts ns p0 -> (forall r, In r l -> ok_ref ns (pd_of ns) true c_unprefix_ifp_once r = true) ->
   tune_target_classes (map show_ref l) (pd_of ns) = Ok (map (cref ns) l) /\
   model_classes (map (cref ns) l) = map (cref ns) l.
 Proof.
@@ -585,22 +585,22 @@ Proof.
 Qed.
 
 Lemma class_name_word ns p0 r :
-  wf_ns_facts ns p0 -> ok_ref ns (pd_of ns) true r = true ->
+  wf_ns_facts ns p0 -> ok_ref ns (pd_of ns) true c_unprefix_ifp_once r = true ->
   nospace (show_ref r) = true /\ show_ref r <> [].
 Proof.
   intros W H.
-  destruct (ok_ref_cases _ _ _ _ H) as [[i [-> [_ [Hi _]]]] | [[i [-> Hi]] | [p [l [n [-> [Hn [Hl Hi]]]]]]]];
+  destruct (ok_ref_cases _ _ _ _ _ H) as [[i [-> [_ [Hi _]]]] | [[i [-> Hi]] | [p [l [n [-> [Hn [Hl Hi]]]]]]]];
     cbn [show_ref].
   - pose proof (ok_iri_facts _ Hi) as F. split; [apply (if_nospace _ F) | apply (if_nonempty _ F)].
   - split; [|discriminate]. rewrite !nospace_app, (if_nospace _ (ok_iri_facts _ Hi)). reflexivity.
   - pose proof (ns_of_In _ _ _ Hn) as Hin.
     destruct (ok_prefix_facts _ (wn_prefix_ok _ _ W _ _ Hin)) as [Hs _].
-    destruct (ok_local_facts _ _ Hl) as [Hls _].
+    destruct (ok_local_facts _ _ _ Hl) as [Hls _].
     split; [apply nospace_prefixed; assumption | destruct p; discriminate].
 Qed.
 
 Lemma class_file_ok ns p0 l :
-  wf_ns_facts ns p0 -> l <> [] -> (forall r, In r l -> ok_ref ns (pd_of ns) true r = true) ->
+  wf_ns_facts ns p0 -> l <> [] -> (forall r, In r l -> ok_ref ns (pd_of ns) true c_unprefix_ifp_once r = true) ->
   file_lines_stripped (show_class_file l) = map show_ref l.
 Proof.
   intros W Hne H. unfold file_lines_stripped, show_class_file. change [ascii_of_nat 10] with nl.
